@@ -80,11 +80,13 @@ pub struct VirtualHandler {
 
 /// Spawns the handler's real main loop as a task of the current runtime.
 pub fn spawn_handler(
-    enr: Arc<RwLock<Enr>>,
-    key: Arc<RwLock<CombinedKey>>,
+    enr: Enr,
+    key: CombinedKey,
     config: Config,
     listen_sockets: Vec<SocketAddr>,
 ) -> VirtualHandler {
+    let enr = Arc::new(RwLock::new(enr));
+    let key = Arc::new(RwLock::new(key));
     let local_id = enr.read().node_id();
     let protocol_identity = config.protocol_identity;
     let (handler, exit, to_handler, from_handler, wire_out, wire_in, expected) =
